@@ -39,3 +39,30 @@ package db
 //@ ghost dbcount(ref) int
 // dbok(d): the store can be listed (no I/O error)
 //@ ghost dbok(ref) bool
+
+// ---------------------------------------------------------------- the file-backed database (C18)
+// Every entity name - arbitrary bytes - has a storage key of its own: the hex spelling of the name (injective, stdlib.spec
+// axiom hexInjective) followed by ".entity". The database holds no state besides its storage, so what a save puts under
+// that key is what a lookup by the same name reads, before and after a restart (util.Storage contracts, C18).
+//@ pred ekey(name) = hexenc(seq(name)) + ".entity"
+//@ func toEntityKey(s) (k)
+//@   pure
+//@   ensures k == ekey(s)
+//@ func (db *database) SaveEntity(e) (err)
+//@   requires db != nil && db.storage != nil
+//@   modifies stex(db.storage, ekey(e.Name)), stval(db.storage, ekey(e.Name))
+//@   ensures saved: err == nil ==> stex(db.storage, ekey(e.Name))
+//@   ensures failed: err != nil ==> stex(db.storage, ekey(e.Name)) == old(stex(db.storage, ekey(e.Name))) && stval(db.storage, ekey(e.Name)) == old(stval(db.storage, ekey(e.Name)))
+//@ func (db *database) EntityWithName(name) (e, err)
+//@   requires db != nil && db.storage != nil
+//@   pure
+//@   ensures found: err == nil ==> stex(db.storage, ekey(name))
+//@   ensures missing: !stex(db.storage, ekey(name)) ==> err != nil
+//@ func (db *database) entityForKey(key) (e, err)
+//@   requires db != nil && db.storage != nil
+//@   pure
+//@   ensures found: err == nil ==> stex(db.storage, key)
+//@   ensures missing: !stex(db.storage, key) ==> err != nil
+//@ func (db *database) DeleteEntity(e)
+//@   requires db != nil && db.storage != nil
+//@   modifies stex(db.storage, ekey(e.Name))
